@@ -11,15 +11,16 @@ def skip_table():
     from lemoncheesecake.suite.core import Suite, Test
 
     class EM:
-        def __init__(self, pending):
+        def __init__(self, pending, message="backend-boom"):
             self.pending = pending
+            self.message = message
 
         def get_pending_failure(self):
-            return (RuntimeError("backend-boom"), "serialized") if self.pending else (None, None)
+            return (RuntimeError(self.message), "serialized") if self.pending else (None, None)
 
     class Sess:
-        def __init__(self, pending, failed):
-            self.event_manager = EM(pending)
+        def __init__(self, pending, failed, message="backend-boom"):
+            self.event_manager = EM(pending, message)
             self.failed = failed
             self.aborted = False
 
@@ -35,11 +36,14 @@ def skip_table():
         "tests have been aborted on --stop-on-failure": "stopOnFailure",
     }
     rows = []
-    for interrupted, pending, abort_all, suite_aborted, stop, failed, is_test in itertools.product([False, True], repeat=7):
+    # every combination is evaluated with a backend exception that has a message and with one that has none
+    # (`str(exception) == ""`: a bare assert, KeyError() …): both must give the same decision
+    for (interrupted, pending, abort_all, suite_aborted, stop, failed, is_test), message in itertools.product(
+            itertools.product([False, True], repeat=7), ["backend-boom", ""]):
         suite = Suite(None, "s", "s")
         test = Test("t", "t", lambda: None)
         suite.add_test(test)
-        sess = Sess(pending, failed)
+        sess = Sess(pending, failed, message)
         ctx = RunContext(sess, None, False, stop)
         if abort_all:
             ctx.handle_exception(AbortAllTests("x"))
@@ -49,8 +53,12 @@ def skip_table():
             ctx.enable_task_abort()
         task = TestTask(test, None) if is_test else SuiteBeginningTask(suite, [])
         r = ctx.is_task_to_be_skipped(task)
+        if pending and message == "" and r == "RuntimeError":
+            r = "backend-boom"        # the class name stands in for the missing message
         kind = names.get(r, "other:" + repr(r))
+        if r is not None and not r:
+            kind = "falsy-reason:" + repr(r)     # handle_task would take it for "do not skip"
         flags = (interrupted, pending, abort_all, suite_aborted, stop, failed, is_test)
         lean_in = "(" + ", ".join("true" if b else "false" for b in flags) + ")"
-        rows.append((lean_in, '"%s"' % kind, dict(zip("interrupted pending abort_all suite_aborted stop failed is_test".split(), flags), out=kind)))
+        rows.append((lean_in, '"%s"' % kind, dict(zip("interrupted pending abort_all suite_aborted stop failed is_test".split(), flags), message=message, out=kind)))
     return C.Table("skipTable", "List ((Bool × Bool × Bool × Bool × Bool × Bool × Bool) × String)", rows)
